@@ -29,7 +29,7 @@ func (c20) ID() string { return "C20" }
 func (c20) Meta(tier string) engine.Meta {
 	return engine.Meta{
 		Level: "model_checking",
-		Rule: "all criteria trees of depth <= 2 over binary AND / OR, unary NOT and 12 leaf conditions (=, <>, >, >=, <, <=, IN, BETWEEN, LIKE, IS NULL on number, string, boolean and time columns; operands that are literals, names bound in the run-time environment and unbound names) (thorough: depth 3 over 3 leaves), plus every adversarial operand (quotes, backslashes, comment markers, newline, NUL, non-ASCII, SQL fragments; numbers -1, 0.5, 2^53, 2^63, 1e300, -0) in every string- / number-taking condition inside four tree contexts. Each criteria value (operand slices built with spare capacity) is lowered twice and each result rendered twice; all four texts must be identical. Oracle: the text is re-read by a tokenizer + precedence reader with standard SQL precedence; the resulting tree must equal the input tree modulo flattening of AND / OR; each operand must be exactly one token that decodes to the operand (strings) / parses back to the same double in plain numeric form / is 1 or 0 / from_unixtime(n); bound names appear as their values, unbound names as back-quoted columns. non-trivial = trees with at least one connective",
+		Rule: "all criteria trees of depth <= 2 over binary AND / OR, unary NOT and 15 leaf conditions (=, <>, >, >=, <, <=, IN, BETWEEN, LIKE, IS NULL on number, string, boolean and time columns; operands that are literals, names bound in the run-time environment and unbound names) (thorough: depth 3 over 3 leaves), plus every adversarial operand (quotes, backslashes, comment markers, newline, NUL, non-ASCII, SQL fragments; numbers -1, 0.5, 2^53, 2^63, 1e300, -0) in every string- / number-taking condition inside four tree contexts. Each criteria value (operand slices built with spare capacity) is lowered twice and each result rendered twice; all four texts must be identical. Oracle: the text is re-read by a tokenizer + precedence reader with standard SQL precedence; the resulting tree must equal the input tree modulo flattening of AND / OR; each operand must be exactly one token that decodes to the operand (strings) / parses back to the same double in plain numeric form / is 1 or 0 / from_unixtime(n); bound names appear as their values, unbound names as back-quoted columns. non-trivial = trees with at least one connective",
 		Bound: "depth 2 × 11 leaves (thorough depth 3 × 3 leaves); 14 adversarial strings, 8 numbers",
 		Assumptions: []string{"double-quoted literals with backslash escapes (the generator's quoting convention) are read the way MySQL reads them: a backslash escapes the next character"},
 	}
@@ -103,8 +103,11 @@ func memberOp(field string) sqlOperand { return sqlOperand{Kind: "member", Name:
 // model: columns and the run-time bindings
 var c20Model = map[string]*types.Type{
 	"a": types.Num, "s": types.Str, "b": types.Bool, "t": types.Time,
-	"u": types.Num, "sv": types.Str, "n2": types.Num, "tv": types.Time, "bv": types.Bool,
+	"u": types.Num, "sv": types.Str, "n2": types.Num, "tv": types.Time, "bv": types.Bool, "tb": types.Time,
 }
+
+// tb: an instant bound at run time, three quarters of a second after a whole second
+var c20BoundTime = time.Unix(1641092645, 750000000)
 
 type c20Bind struct {
 	U  float64 `json:"u"`
@@ -125,6 +128,9 @@ func c20Leaves() []*crit {
 		{Op: ">=", Field: "u", Operands: []sqlOperand{nameOp("n2")}},
 		{Op: "=", Field: "s", Operands: []sqlOperand{nameOp("sv")}},
 		{Op: "<", Field: "a", Operands: []sqlOperand{memberOp("n")}},
+		{Op: ">=", Field: "t", Operands: []sqlOperand{nameOp("tb")}},
+		{Op: "IN", Field: "a", Operands: []sqlOperand{{Kind: "list", List: []sqlOperand{nameOp("u"), numOp("0")}}}},
+		{Op: "IN", Field: "s", Operands: []sqlOperand{{Kind: "list", List: []sqlOperand{strOp("k"), nameOp("sv"), strOp("z")}}}},
 	}
 }
 
@@ -345,6 +351,11 @@ func checkOperand(want sqlOperand, got ref.SQLTok, bind c20Bind) string {
 			want = sqlOperand{Kind: "num", N: bind.U}
 		case "sv":
 			want = strOp(bind.SV)
+		case "tb":
+			if got.Kind != "time" || got.Val != strconv.FormatInt(c20BoundTime.Unix(), 10) {
+				return fmt.Sprintf("the bound instant %s should appear as from_unixtime(%d), got %s", c20BoundTime.UTC().Format(time.RFC3339Nano), c20BoundTime.Unix(), got.Text)
+			}
+			return ""
 		default:
 			if got.Kind != "ident" || got.Val != want.Name {
 				return fmt.Sprintf("unbound name %s should appear as the column `%s`, got %s", want.Name, want.Name, got.Text)
@@ -443,13 +454,14 @@ func (c20) Run(c *engine.Case) *engine.Result {
 	}
 	res := &engine.Result{NonTrivial: len(d.C.Kids) > 0}
 	env1 := types.NewEnv()
-	for _, n := range []string{"a", "s", "b", "t", "u", "sv", "n2", "tv", "bv"} {
+	for _, n := range []string{"a", "s", "b", "t", "u", "sv", "n2", "tv", "bv", "tb"} {
 		env1.Put(n, c20Model[n])
 	}
 	env1.Put("obj", types.Obj([]types.Field{{Name: "n", Val: types.Num}, {Name: "s", Val: types.Str}}))
 	env := val.NewEnv()
 	env.Put("u", val.Num(d.B.U))
 	env.Put("sv", val.Str(d.B.SV))
+	env.Put("tb", val.Time(c20BoundTime))
 	{
 		// stored with its fields in the other order than the model declares
 		ot := types.Obj([]types.Field{{Name: "s", Val: types.Str}, {Name: "n", Val: types.Num}}).Obj()
